@@ -18,6 +18,7 @@ from lib import sim
 
 HBARS = [1.0, 0.5, 0.7, 3.0, 4.5, 0.98]
 MAX_WEIGHTS_FOCK = 12
+METHOD_TOL = {"squeezing": 1e-6}
 # power of s carried by numeric parameter j of a class
 PAR_DIM = {"Xgate": [1], "Zgate": [1], "Vgate": [-1]}
 
@@ -148,7 +149,10 @@ def observe(sf, st, call, h):
         if m == "displacement":
             return _arr(st.displacement(call.get("modes")))
         if m == "squeezing":
-            return _arr(np.array(st.squeezing(call.get("modes")), dtype=float))
+            # (r, phi) = (arccosh(tr/2)/2, -arcsin(...)): arccosh is ill-conditioned at r = 0 and arcsin at |phi| = pi/2,
+            # and phi is 0/0 for r = 0.  Compare r and sin(phi) (for r > 1e-4) - with METHOD_TOL["squeezing"]
+            sq = np.array(st.squeezing(call.get("modes")), dtype=float)
+            return _arr(np.stack([sq[:, 0], np.where(sq[:, 0] > 1e-4, np.sin(sq[:, 1]), 0.0)], axis=-1))
         if m == "is_coherent":
             return bool(st.is_coherent(call["mode"]))
         if m == "is_squeezed":
@@ -457,6 +461,11 @@ def rand_program(rng, backend, n=None):
             if op["cls"] == "MSgate":
                 op["pars"][4] = True
         ops.append(op)
+    for op in ops:
+        # keep parameters away from 0 unless they are 0: thresholds such as `is_pure` (|det V - (hbar/2)^2N| < 1e-10)
+        # are absolute and would be crossed at one hbar only by states that are mixed at the 1e-6 level
+        if op["cls"] != "Gaussian":
+            op["pars"] = [(math.copysign(0.02, p) if isinstance(p, float) and 0 < abs(p) < 0.02 else p) for p in op.get("pars", [])]
     spec = dict(n=n, ops=ops)
     if fock:
         spec["cutoff"] = 7 if n <= 2 else 5
